@@ -5,6 +5,7 @@ package discoverychain
 
 import (
 	"fmt"
+	"sort"
 	"strings"
 	"time"
 
@@ -451,9 +452,19 @@ func (c *compiler) detectCircularReferences() error {
 }
 
 func (c *compiler) flattenAdjacentSplitterNodes() error {
+	// Visit the nodes in a fixed order: weights are rounded each time a nested
+	// splitter is absorbed, so the result depends on the order of absorption
+	// and must not depend on map iteration order.
+	nodeNames := make([]string, 0, len(c.nodes))
+	for name := range c.nodes {
+		nodeNames = append(nodeNames, name)
+	}
+	sort.Strings(nodeNames)
+
 	for {
 		anyChanged := false
-		for _, node := range c.nodes {
+		for _, name := range nodeNames {
+			node := c.nodes[name]
 			if node.Type != structs.DiscoveryGraphNodeTypeSplitter {
 				continue
 			}
